@@ -310,6 +310,11 @@ def extra(ctx):
         if not quick or nm != "FLOATVECTOR.RAND":
             cases.append(size_case(1, nm, 1000000))
     cases += [size_case(1, SINE, 1000000)] + ([] if quick else [size_case(0, SINE, 1000000)])
+    # a huge DIMENSION operand with a tiny size: must be clamped to the size (no operand-sized allocation)
+    for nm in NBR:
+        for dims in (1000, 1000000, 200000000, 2147483647):
+            ints = [3, 1, dims] if nm == "LIST.NEIGHBOR*IDS" else [0, 3, 1, dims]
+            cases.append(case_run(1, state(exec=[I(nm)], int=ints, float=[fbits(1.0)], code=[L(Z(1)), L(Z(2)), L(Z(3))]), 0, 1))
     for nm in NBR:
         cases += [size_case(0, nm, 10000), size_case(1, nm, 10000)]
         if not quick or nm == "LIST.NEIGHBOR*IDS":
@@ -319,7 +324,7 @@ def extra(ctx):
     # the scalar generators and CODE.RAND: bounded by the configured limits, results random
     cases = []
     for nm in sorted(stepgen.RANDOM - set(RANDVEC)):
-        for n_ in (0, 1, 25, 1000, 100000, -1, -1000, -1000000):
+        for n_ in (0, 1, 25, 26, 100, 1000, 100000, -1, -26, -27, -100, -1000, -1000000):
             cases.append(size_case(rng.randrange(2), nm, n_))
     impl_only(ctx, "random-generators", cases,
               "BOOLEAN / INTEGER / FLOAT / NAME.RAND, NAME.RANDBOUNDNAME, CODE.RAND with INTEGER operands 0 .. 10^5 and negative: return, growth within the bound (CODE.RAND: at most max_points_in_random_expressions points)",
